@@ -43,8 +43,8 @@ type XFunc struct {
 }
 
 type xprogCase struct {
-	Fs   []XFunc `json:"funcs"`
-	Q    int     `json:"query"`
+	Fs     []XFunc `json:"funcs"`
+	Q      int     `json:"query"`
 	out    string
 	orc    string
 	have   bool
